@@ -27,6 +27,9 @@ func (f InverterStateFactoryType) New(v uint8) (InverterState, error) {
 }
 
 func (f InverterStateFactoryType) NewEnum(v int) (Enum, error) {
+	if v < 0 || v > 0xFF {
+		return nil, ErrInvalidEnumIdx
+	}
 	return f.New(uint8(v))
 }
 
